@@ -1,4 +1,5 @@
 pub mod alpha;
 pub mod delta;
 pub mod lex;
+pub mod monitor;
 pub mod trees;
